@@ -59,6 +59,7 @@ SPANS = [
     ("crates/rust/src/interface.rs", "fn generate_guest_export", None),
     ("crates/rust/src/interface.rs", "pub fn is_list_canonical", None),
     ("crates/guest-rust/src/rt/mod.rs", "macro_rules! bitflags", None),
+    ("crates/guest-rust/src/rt/mod.rs", "impl Cleanup", None),
     ("crates/guest-rust/src/resource.rs", "unsafe impl<T> ResourceRep<T> for Option<T>", None),
 ]
 
@@ -344,7 +345,12 @@ def run(prop_id: str, tier: str, seed: int) -> vlib.Outcome:
         "'as judged by an independent component-model host': no wasm toolchain or host in the sandbox; the harness is the host",
         "borrow<exported resource> arguments and `self` of exported methods: the glue rebuilds the rep with `arg as u32 as usize`, "
         "which cannot carry a 64-bit host pointer; only 'nothing is dropped' is checked for them",
-        "map<K,V> (BTreeMap insert alone exceeds 16 GB in CBMC, HashMap needs RandomState -- DESIGN section E3/E5 measurements), async, futures/streams, error-context",
+        "map<K,V> beyond the thorough tier's two harnesses (default BTreeMap map type, CONCRETE entry count 0 or 1, symbolic key/value/padding): "
+        "measured here -- BTreeMap with a symbolic length <= 1 is killed at the 16 GB cap after 225 s of CBMC; "
+        "map_type=std::collections::HashMap with one concrete entry times out at 600 s (RandomState/SipHash, 12 foreign functions)",
+        "raw_strings with an exported function RETURNING a string: the generated text does not compile (`Vec<u8>::into_bytes` in StringLower; "
+        "upstream TODO in tests/runtime/rust/raw-strings/test.rs), so the raw_strings worlds contain string parameters only",
+        "async, futures/streams, error-context handles",
         "types and option combinations outside the enumerated corpus; lists longer than the bound; strings longer than 2 bytes",
         "UTF-8 validation inside String::from_utf8 (stubbed, see assumptions)",
     ]
